@@ -173,7 +173,7 @@ CHECKS = {
                 "the constructor accepts exactly the layouts in which no two names share a grid; for an accepted layout every table grid is found "
                 "under a name that maps back to it; the bounding box contains every site and each side is attained (non-negative spacings). "
                 "Correspondence: all pairs of ~70/400 layouts with every field varied independently, constructor acceptance, get_zone_id of every "
-                "pool grid, bounding_box; all pairs/triples for the laws on the implementation; every layout returned by the library builders.",
+                "pool grid, bounding_box; all pairs/triples for the laws on the implementation; every layout returned by the library builders. arch.py is also READ from source on every run (harness/gen/arch_reader.py, fail-closed): the fields __eq__ and __hash__ of Layout / ArchSpec look at, how the zone index is built and read; the generated file build/C13/Gen_C13_src.v states they are the tables the model compares and hashes.",
         "note": NOTE_COMMON + " Known finding recorded: gemini.logical.get_spec extends tables after construction (stale index, duplicate names).",
         "technique": "Coq proofs (equivalence, index invariant, min/max folds over Q) + reflected field tables + vm_compute correspondence",
     },
@@ -191,7 +191,7 @@ CHECKS = {
         "text": "A heap model makes Python aliasing explicit (mutable waypoint cells, reference lists, shallow copy, dirty state after failures). "
                 "Theorems over ALL histories from ANY starting state: each result, observed at any later time, equals the fresh-instance result; "
                 "cells of a result are allocated by its own call. Tied to the implementation by replaying all histories up to length 3/4 over 5 "
-                "items (incl. the three failure kinds) and random histories up to length 12, with object-identity checks on live results.",
+                "items (incl. the three failure kinds) and random histories up to length 12, with object-identity checks on live results. taskgen.py is also READ from source on every run (harness/gen/tracer_frame.py, fail-closed): every attribute a trace writes on the interpreter is rebound by initialize to a fresh constant, run_trace is guards / one run / return of a copy, no class-level, module-level or memoised state is written - so the state the model carries between calls is all there is (build/C15/Gen_C15_src.v).",
         "note": NOTE_COMMON,
         "technique": "Coq proof over an explicit heap model (simulation to the pure tracer) + history replay correspondence",
     },
